@@ -153,10 +153,18 @@ Definition emit_idiv (guard_first : bool) (m : cmode) (t : ity) (maybe_neg noche
   if maybe_neg then emitted_idiv_helper guard_first m t (negb nochecks) a b else op_cdiv t a b.
 Definition emit_imod (guard_first : bool) (m : cmode) (t : ity) (maybe_neg nochecks : bool) (a b : Z) : outcome :=
   if maybe_neg then emitted_imod_helper guard_first m t (negb nochecks) a b else op_crem t a b.
-Definition emit_shl (m : cmode) (t : ity) (cnt_comptime : bool) (a b : Z) : outcome :=
-  if cnt_comptime && (0 <=? b) && (b <? ibits t) then
+(* operators.shl / shr / asr: the plain C operator is used when the count is a compile-time constant n with
+   0 <= n < W.  [wleft] (scraped into Gen.v, one flag per operator) tells which width the generator compares
+   against: the shifted operand's (true, the code as it is) or the count's own type [ct] (int64 for an
+   untyped constant).  The constant is emitted as a C int literal. *)
+Definition fast_width (wleft : bool) (t ct : ity) : Z := if wleft then ibits t else ibits ct.
+Definition emit_shl (wleft : bool) (m : cmode) (t ct : ity) (cnt_comptime : bool) (a b : Z) : outcome :=
+  if cnt_comptime && (0 <=? b) && (b <? fast_width wleft t ct) then
     (if isigned t then op_shl_const m t a b else ret t (c_shl m (t, a) (lit b)))
   else h_shl m t a b.
-Definition emit_shr (m : cmode) (t : ity) (cnt_comptime : bool) (a b : Z) : outcome :=
-  if negb (isigned t) && cnt_comptime && (0 <=? b) && (b <? ibits t) then ret t (c_shr (t, a) (lit b))
+Definition emit_shr (wleft : bool) (m : cmode) (t ct : ity) (cnt_comptime : bool) (a b : Z) : outcome :=
+  if negb (isigned t) && cnt_comptime && (0 <=? b) && (b <? fast_width wleft t ct) then ret t (c_shr (t, a) (lit b))
   else h_shr m t a b.
+Definition emit_asr (wleft : bool) (m : cmode) (t ct : ity) (cnt_comptime : bool) (a b : Z) : outcome :=
+  if cnt_comptime && (0 <=? b) && (b <? fast_width wleft t ct) then op_asr_const t a b
+  else h_asr m t a b.
